@@ -12,6 +12,9 @@ def run (payload : String) : String :=
   | none => "bad-input"
   | some bs =>
     if !(ByteArray.mk bs.toArray).validateUTF8 then "bad-input" else
+    -- the executable model appends to a `List` (quadratic): very long inputs are judged by the reference decoder of
+    -- the check only (the theorems cover them all the same)
+    if bs.length > 8192 then "unsupported" else
     let s : Src := bs.toArray
     let a := match unescapeUnicodeToString s with
       | .done (o, owned) => "s:ok:" ++ hexEnc o ++ ":" ++ (if owned then "o" else "b")
